@@ -5,7 +5,7 @@ id=$1; shift
 props=${@:-$(echo $id | cut -d- -f1)}
 cd /verif
 git -C /repo diff --quiet || { echo "/repo not clean"; exit 2; }
-git -C /repo apply seeded/$id/patch.diff || { echo "$id APPLY-FAILED" | tee -a .work/seedtest.log; exit 2; }
+git -C /repo apply /verif/seeded/$id/patch.diff || { echo "$id APPLY-FAILED" | tee -a .work/seedtest.log; exit 2; }
 for p in $props; do
   s=$(date +%s)
   ./check $p --tier quick > .work/seed_${id}_$p.log 2>&1
